@@ -206,6 +206,9 @@ def evaluate(tree, assign, atoms):
             k = ("call", show(e, atoms.names))
             if k not in atoms.domains:
                 atoms.domains[k] = (0, 1)
+                if not hasattr(atoms, "callee"):
+                    atoms.callee = {}
+                atoms.callee[k] = e[1]
             if k not in assign:
                 raise NeedAtom(k)
             return assign[k]
